@@ -22,7 +22,22 @@ char *strpbrk (const char *s, const char *a)
       if (s[i] == a[j]) return (char *) s + i;
   return 0;
 }
-/* C-locale ctype table reached through the glibc macros */
+/* C-locale character classes as functions (the encoding is compiled with -D__NO_CTYPE, so glibc's table macros are off) */
+int isdigit (int c) { return c >= '0' && c <= '9'; }
+int isupper (int c) { return c >= 'A' && c <= 'Z'; }
+int islower (int c) { return c >= 'a' && c <= 'z'; }
+int isalpha (int c) { return (c >= 'A' && c <= 'Z') || (c >= 'a' && c <= 'z'); }
+int isalnum (int c) { return (c >= 'A' && c <= 'Z') || (c >= 'a' && c <= 'z') || (c >= '0' && c <= '9'); }
+int isxdigit (int c) { return (c >= '0' && c <= '9') || (c >= 'a' && c <= 'f') || (c >= 'A' && c <= 'F'); }
+int isspace (int c) { return c == ' ' || (c >= 9 && c <= 13); }
+int isblank (int c) { return c == ' ' || c == 9; }
+int isprint (int c) { return c >= 32 && c < 127; }
+int isgraph (int c) { return c > 32 && c < 127; }
+int iscntrl (int c) { return (c >= 0 && c < 32) || c == 127; }
+int ispunct (int c) { return c > 32 && c < 127 && !((c >= 'A' && c <= 'Z') || (c >= 'a' && c <= 'z') || (c >= '0' && c <= '9')); }
+int tolower (int c) { return (c >= 'A' && c <= 'Z') ? c + 32 : c; }
+int toupper (int c) { return (c >= 'a' && c <= 'z') ? c - 32 : c; }
+/* C-locale ctype table, for code that still reaches the glibc table entry points */
 static unsigned short verif_ctype_tab[384];
 static const unsigned short *verif_ctype_ptr;
 const unsigned short **__ctype_b_loc (void)
@@ -105,6 +120,9 @@ int mblen (const char *s, size_t n)
 #ifdef VERIF_CBMC
 /* faithful mini-printf (CBMC's own sprintf model writes arbitrary content): %s %d %i %u %ld %lld %lu %c %% and literals */
 #include <stdarg.h>
+#ifdef VERIF_FMT_GUESS
+int nondet_int (void); unsigned char nondet_uchar (void);
+#endif
 static int verif_fmt (char *out, size_t cap, int bounded, const char *fmt, va_list ap)
 {
   size_t n = 0; int i;
@@ -122,8 +140,28 @@ static int verif_fmt (char *out, size_t cap, int bounded, const char *fmt, va_li
           long long v; unsigned long long m; char tmp[24]; int k = 0;
           if (fmt[i - 1] == 'l' || fmt[i - 1] == 'z') v = va_arg (ap, long long); else v = va_arg (ap, int);
           if (fmt[i] != 'u' && v < 0) { VPUT ('-'); m = 0ULL - (unsigned long long) v; } else m = (unsigned long long) v;
+#ifdef VERIF_FMT_GUESS
+          /* decimal conversion as guess-and-check (same function, cheaper formula): the digits are chosen by the
+             solver and constrained by Horner evaluation == m with no leading zero and no wrap-around; decimal
+             representations are unique, so this is exactly the digit string that repeated division by 10 produces */
+          {
+            int L = nondet_int (); unsigned long long acc = 0;
+            __CPROVER_assume (L >= 1 && L <= 20);
+            for (k = 0; k < 20; k++)
+              if (k < L)
+                {
+                  unsigned char d = nondet_uchar ();
+                  __CPROVER_assume (d <= 9 && (d != 0 || k > 0 || L == 1));
+                  __CPROVER_assume (acc < 1844674407370955161ULL || (acc == 1844674407370955161ULL && d <= 5));
+                  acc = acc * 10 + d; tmp[k] = (char) ('0' + d);
+                }
+            __CPROVER_assume (acc == m);
+            for (k = 0; k < 20; k++) if (k < L) VPUT (tmp[k]);
+          }
+#else
           do { tmp[k++] = (char) ('0' + (int) (m % 10)); m /= 10; } while (m && k < 22);
           while (k > 0) VPUT (tmp[--k]);
+#endif
         }
       else { VPUT ('?'); }
     }
